@@ -437,6 +437,56 @@ static void run_hier_weak(const char *cname) {
     }
 }
 
+// run-time configuration of the distributed AMG: parameters read from a property tree are the parameters (import then export is
+// the identity, boundary values included), and a hierarchy configured through the tree acts like the one configured through
+// the params struct
+template <class Coarsening>
+static void run_hier_params(const char *cname) {
+    typedef mpi::amg<B, Coarsening, mpi::relaxation::spai0<B>, mpi::direct::skyline_lu<double>, mpi::partition::merge<B>> AMG;
+    struct Fld { const char *name; std::vector<int> vals; };
+    const std::vector<Fld> flds = {{"coarse_enough", {0, 1, 7}}, {"max_levels", {1, 2, 5}}, {"npre", {0, 1, 3}}, {"npost", {0, 1, 3}}, {"ncycle", {1, 2}}, {"pre_cycles", {0, 1, 2}}, {"direct_coarse", {0, 1}}, {"allow_rebuild", {0, 1}}};
+    for (auto &fl : flds) for (int v : fl.vals) {
+        std::string key = vf::KS() << "hp|" << cname << "|" << fl.name << "|" << v;
+        if (!vf::take([&]{ return key; })) continue;
+        vf::nontrivial(vf::hstr(key));
+        boost::property_tree::ptree in; in.put(fl.name, v);
+        std::string got;
+        try { typename AMG::params prm(in); boost::property_tree::ptree out; prm.get(out, ""); got = out.get<std::string>(fl.name, "<missing>"); }
+        catch (const std::exception &e) { got = std::string("exception: ") + e.what(); }
+        vf::count("params_roundtrips");
+        std::string want = (std::string(fl.name) == "direct_coarse" || std::string(fl.name) == "allow_rebuild") ? (v ? "true" : "false") : std::to_string(v);
+        if (got != want && !(want == "true" && got == "1") && !(want == "false" && got == "0")) vf::fail(std::string("dparams.roundtrip.") + cname, key, vf::KS() << fl.name << " = " << v << " read from a property tree is exported as " << got);
+    }
+    // pre_cycles / npre / npost through the tree vs through the struct: same action of the preconditioner (2 ranks)
+    Sys s = grid(5, 5, 1);
+    for (int pc : {0, 1, 2}) for (int np : {0, 1}) {
+        std::string key = vf::KS() << "hp|" << cname << "|apply|pc" << pc << "|npre" << np;
+        if (!vf::take([&]{ return key; })) continue;
+        vf::nontrivial(vf::hstr(key));
+        Part p = {0, 12, 25};
+        std::vector<double> ytree(s.n, 0), ystruct(s.n, 0); std::string exc;
+        set_env(ENVS[0], nullptr, false);
+        try {
+            mm::run(2, [&](int r) {
+                mpi::communicator comm(MPI_COMM_WORLD);
+                int rb = p[r], re = p[r + 1], nl = re - rb;
+                std::vector<ptrdiff_t> ptr(1, 0), col; std::vector<double> val;
+                for (int i = rb; i < re; ++i) { for (ptrdiff_t j = s.ptr[i]; j < s.ptr[i+1]; ++j) { col.push_back(s.col[j]); val.push_back(s.val[j]); } ptr.push_back((ptrdiff_t)col.size()); }
+                boost::property_tree::ptree t; t.put("coarse_enough", 3); t.put("pre_cycles", pc); t.put("npre", np);
+                typename AMG::params ps; ps.coarse_enough = 3; ps.pre_cycles = pc; ps.npre = np;
+                AMG at(comm, std::make_tuple((size_t)nl, ptr, col, val), typename AMG::params(t)), as(comm, std::make_tuple((size_t)nl, ptr, col, val), ps);
+                backend::numa_vector<double> f(nl), x1(nl), x2(nl); for (int i = 0; i < nl; ++i) { f[i] = 1 + (rb + i) % 4; x1[i] = x2[i] = 0; }
+                at.apply(f, x1); as.apply(f, x2);
+                for (int i = 0; i < nl; ++i) { ytree[rb + i] = x1[i]; ystruct[rb + i] = x2[i]; }
+            });
+        } catch (const std::exception &e) { exc = e.what(); }
+        vf::count("executions"); vf::S().transitions += 1; vf::S().states += 1;
+        if (!exc.empty()) { vf::fail(std::string("dparams.apply.") + cname, key, "exception: " + exc); continue; }
+        if (std::memcmp(ytree.data(), ystruct.data(), s.n * sizeof(double)) != 0) { double w = 0; for (int i = 0; i < s.n; ++i) w = std::max(w, std::abs(ytree[i] - ystruct[i])); vf::fail(std::string("dparams.apply.") + cname, key, vf::KS() << "pre_cycles=" << pc << " npre=" << np << ": hierarchy configured through the property tree acts differently from the one configured through the struct (max diff " << w << ")"); }
+    }
+    vf::space(vf::KS() << "mpi::amg parameters, " << cname << ": 8 fields x boundary values, import/export identity; tree- vs struct-configured hierarchy for pre_cycles {0,1,2} x npre {0,1}");
+}
+
 template <class Coarsening>
 static void run_hier_t(const char *cname) {
     auto sys = systems();
@@ -566,6 +616,7 @@ int main(int argc, char **argv) {
     vf::sample_str("hierarchy case: aggregation on grid5x5_c1, 3 ranks: every level operator extracted by distributed spmv on unit vectors; partition laws, R == P^T, A_c == R A P / 1.5, direct solver inverse");
 #ifdef C12_UNIT_HIER
     if (vf::section("h")) { run_hier_t< mpi::coarsening::aggregation<B> >("aggregation"); run_hier_t< mpi::coarsening::smoothed_aggregation<B> >("smoothed_aggregation"); }
+    if (vf::section("hp")) { run_hier_params< mpi::coarsening::aggregation<B> >("aggregation"); run_hier_params< mpi::coarsening::smoothed_aggregation<B> >("smoothed_aggregation"); }
     if (vf::section("hw")) { run_hier_weak< mpi::coarsening::aggregation<B> >("aggregation"); run_hier_weak< mpi::coarsening::smoothed_aggregation<B> >("smoothed_aggregation"); }
 #elif defined(C12_UNIT_SDD)
     if (vf::section("sd")) run_sdd();
